@@ -77,9 +77,11 @@ pub fn run_grid_part(ctx: &Ctx, evals: &AtomicU64, nontrivial: &AtomicU64) {
     par_for(g.len(), 64, |k, _| {
         let (secs, nanos) = g[k];
         for v in [Version::Classic, Version::Ietf13] {
+          // the root is an opaque value to the signer: one of this version's width and one of the other's
+          for rw in [v.node_width(), 96 - v.node_width()] {
             evals.fetch_add(1, Relaxed);
             nontrivial.fetch_add(1, Relaxed);
-            let root: Vec<u8> = (0..v.node_width()).map(|i| (i as u64 * 3 + secs) as u8).collect();
+            let root: Vec<u8> = (0..rw).map(|i| (i as u64 * 3 + secs) as u8).collect();
             let r = catch(|| {
                 let mut ok = OnlineKey::new();
                 let pk = ok.make_dele().get_field(Tag::PUBK).unwrap().to_vec();
@@ -88,7 +90,7 @@ pub fn run_grid_part(ctx: &Ctx, evals: &AtomicU64, nontrivial: &AtomicU64) {
                 let m = ok.make_srep(super::c10::rv(v), UNIX_EPOCH + Duration::new(secs, nanos), &root);
                 (pk, m.get_field(Tag::SIG).map(|s| s.to_vec()), m.get_field(Tag::SREP).map(|s| s.to_vec()), m.num_fields())
             });
-            let detail = |m: String| json!({"kind":"grid","version":v.name(),"secs":secs,"nanos":nanos,"message":m});
+            let detail = |m: String| json!({"kind":"grid","version":v.name(),"secs":secs,"nanos":nanos,"root_len":rw,"message":m});
             match r {
                 Err(p) => ctx.violation("panic", "make_srep", v.name(), detail(p)),
                 Ok((pk, Some(sig), Some(srep), 2)) => {
@@ -98,6 +100,7 @@ pub fn run_grid_part(ctx: &Ctx, evals: &AtomicU64, nontrivial: &AtomicU64) {
                 }
                 Ok(_) => ctx.violation("srep-shape", "make_srep", v.name(), detail("missing SIG/SREP".into())),
             }
+          }
         }
     });
     ctx.cov("clock_grid_points", json!(g.len()));
@@ -110,7 +113,7 @@ pub fn replay_case(c: &Value) -> Result<Option<String>, String> {
     let v = if c["version"] == "classic" { Version::Classic } else { Version::Ietf13 };
     let secs = c["secs"].as_u64().ok_or("secs")?;
     let nanos = c["nanos"].as_u64().ok_or("nanos")? as u32;
-    let root = vec![9u8; v.node_width()];
+    let root = vec![9u8; c["root_len"].as_u64().map(|l| l as usize).unwrap_or(v.node_width())];
     let mut ok = OnlineKey::new();
     let pk = ok.make_dele().get_field(Tag::PUBK).unwrap().to_vec();
     let m = ok.make_srep(super::c10::rv(v), UNIX_EPOCH + Duration::new(secs, nanos), &root);
@@ -280,7 +283,7 @@ pub fn run(ctx: &Ctx) -> Result<(), String> {
     ctx.cov("distinct_nontrivial", json!(nontrivial.load(Relaxed)));
     ctx.cov("live_replies_bracketed", json!(live.load(Relaxed)));
     ctx.cov("exhaustive", json!(true));
-    ctx.cov("rule", json!("grid: make_srep(version, clock, root) for clock seconds {0,1,59,60,1e9,2^31-1,2^31,2^32-1,2^32,year 2200,year 9999,2^40} x nanos {0,1,999,1000,1001,499999999,999999,1000000,999999000,999999999} (thorough: + every second of 2024-02-29 x {0,999999999}) x both versions, second SREP on a key that already signed one: MIDP == floor(clock / unit) (microseconds classic, seconds IETF), RADI == 5 s in that unit, ROOT echoed, IETF VER/VERS present, SIG verifies under the online key with the response context. Live: every authentic reply of all C09 event histories of the tier's depth (batch_size 1, 2 and 3), plus 156 histories per batch size that end with a request arriving INSIDE a wake-up (at the polled / collected / sent hook point, after 0..2 queued requests), is bracketed per reply by harness clock readings taken just before its request was sent (for a mid-step arrival: at the hook point) and when the reply was drained (after the step that produced it). Process: the real server binary started under TZ in {UTC, EST5EDT, JST-9, <+0545>-5:45, America/New_York, Australia/Lord_Howe}: one reply per protocol, same bracket."));
+    ctx.cov("rule", json!("grid: make_srep(version, clock, root) for clock seconds {0,1,59,60,1e9,2^31-1,2^31,2^32-1,2^32,year 2200,year 9999,2^40} x nanos {0,1,999,1000,1001,499999999,999999,1000000,999999000,999999999} (thorough: + every second of 2024-02-29 x {0,999999999}) x both versions x root widths {32, 64 bytes}, second SREP on a key that already signed one: MIDP == floor(clock / unit) (microseconds classic, seconds IETF), RADI == 5 s in that unit, ROOT echoed, IETF VER/VERS present, SIG verifies under the online key with the response context. Live: every authentic reply of all C09 event histories of the tier's depth (batch_size 1, 2 and 3), plus 156 histories per batch size that end with a request arriving INSIDE a wake-up (at the polled / collected / sent hook point, after 0..2 queued requests), is bracketed per reply by harness clock readings taken just before its request was sent (for a mid-step arrival: at the hook point) and when the reply was drained (after the step that produced it). Process: the real server binary started under TZ in {UTC, EST5EDT, JST-9, <+0545>-5:45, America/New_York, Australia/Lord_Howe}: one reply per protocol, same bracket."));
     ctx.sample(json!({"kind":"grid","version":"classic","secs":2147483648u64,"nanos":999999999}));
     ctx.sample(json!({"kind":"live","version":"ietf13","events":["I0","C1","step","I1"]}));
     ctx.assume("the harness and the in-process server read the same system clock; the clock does not step backwards during a history");
